@@ -813,7 +813,7 @@ pub fn selection_oracle(w: &RegWorld, built: &Built, loader: &RegLoader, report:
 pub fn url_cases(rng: &mut Rng) -> Vec<String> {
   let mut out = vec![];
   for name in PKG_NAMES {
-    for v in VERSIONS.iter().chain(["1.0.0+build", "x", "1.0", "", "01.0.0", "1.0.0_meta.json"].iter()) {
+    for v in VERSIONS.iter().chain(["1.0.0+build", "x", "1.0", "", "01.0.0", "v1.0.0", "=1.0.0", "1.0.0_meta.json"].iter()) {
       for tail in ["", "/", "/mod.ts", "/a/b.ts", "_meta.json", "-beta/mod.ts", "?q=1"] {
         out.push(format!("{}{}/{}{}", REG, name, v, tail));
         if rng.chance(1, 6) {
@@ -886,7 +886,9 @@ pub fn run(tier: &str, seed: u64) -> Report {
     let got = deno_graph::source::recommended_registry_package_url_to_nv(&reg, &url);
     // third path segment as the implementation sees it
     let seg = url.as_str().strip_prefix(REG).map(|p| p.strip_prefix('/').unwrap_or(p)).and_then(|p| p.split('/').nth(2).map(|s| s.to_string()));
-    let valid = seg.as_ref().filter(|s| Version::parse_standard(s).is_ok());
+    // the model's `validVer`: the segment is the normalized text of a version (the parser is loose:
+    // `v1.0.0`, `=1.0.0`, `01.0.0` parse, but are not the path segment of any package version — F38)
+    let valid = seg.as_ref().filter(|s| Version::parse_standard(s).map(|v| v.to_string() == **s).unwrap_or(false));
     batch.push(
       format!("(jsr-urlnv {} {} (valid {}))", satom(REG), satom(url.as_str()), valid.map(|s| satom(s)).unwrap_or_default()),
       got.as_ref().map(|nv| format!("{} {}", nv.name, seg.clone().unwrap_or_else(|| "<not under the registry URL>".into()))).unwrap_or("none".into()),
@@ -908,11 +910,8 @@ pub fn run(tier: &str, seed: u64) -> Report {
         let alt = format!("{}/{}/{}", REG, nv.name, nv.version);
         url.as_str() == alt || url.as_str().starts_with(&format!("{}/", alt))
       };
-      // the version's canonical text may differ from the segment (build metadata etc.): compare on the segment too
-      // (a leading-zero rendering such as 01.0.0 parses to the same version: same package)
-      let seg_base = format!("{}{}/{}", REG, nv.name, seg.clone().unwrap());
-      let norm = url.as_str().replacen("https://jsr.io//", "https://jsr.io/", 1);
-      let inside = inside || norm == seg_base || norm.starts_with(&format!("{}/", seg_base));
+      // (before the repair of F38 a segment that merely *parses* to the version — `v1.0.0`, `01.0.0` —
+      // was tolerated here; the URL has to lie below the package's own URL)
       if !inside {
         report.fail("oracle", "url-attributed-to-other-package", format!("{} -> {} whose directory is {}", url, nv, base), json!({"url": u}));
       }
